@@ -307,7 +307,8 @@ def rule_line_patterns_all(ctx, rep):
         if isinstance(v, ast.ListComp):
             it = v.generators[0].iter
             src = r.expand(it)
-            if not (isinstance(src, ast.Name) and src.id == "patterns"):
+            pp_ = fn.positional_params()  # file_line_patterns(file_path, patterns, parent_path=None): the pattern list is the second parameter
+            if not (isinstance(src, ast.Name) and len(pp_) >= 2 and src.id == pp_[1]):
                 # iterating something derived from the patterns: must not be a dict / set
                 problems.append(f"the result iterates `{unparse(it)[:40]}` instead of the pattern list itself")
         elif isinstance(v, ast.Call) and call_name(v) in ("list", "sorted") and v.args and isinstance(r.expand(v.args[0]), (ast.DictComp, ast.SetComp, ast.Dict, ast.Set)):
